@@ -1,4 +1,5 @@
 import Oas3Model.Model.Fmt
+import Oas3Model.Proofs.Fmt
 import Oas3Model.Props.C03
 import Oas3Model.Gen.PanicSites
 namespace Oas3.Props.C19
@@ -15,7 +16,15 @@ theorem fmt_nobrace (s : List Char) (h : noBrace s = true) : fmtRender s = some 
     unfold fmtRender
     split <;> simp_all
 
-/-- known defect: `write!(f, "a{b}")` does not compile; `"{{x}}"` prints `{x}` -/
+/-- the escaping applied by `DisplayImplArmFragment` (since the `fix:` commit for F19-1): EVERY enum value, braces
+or not, survives as the format string of `write!` and prints exactly itself -/
+theorem fmt_escape (s : List Char) : fmtRender (escapeBraces s) = some s := Oas3.Fmt.fmt_escape s
+
+/-- escaping is necessary, not only sufficient: a text used RAW as a format string prints itself iff it has no brace -/
+theorem fmt_raw_iff (s : List Char) : fmtRender s = some s ↔ noBrace s = true :=
+  ⟨Oas3.Fmt.fmt_raw_noBrace s, fmt_nobrace s⟩
+
+/-- what the unescaped form did (finding F19-1, fixed): `write!(f, "a{b}")` does not compile; `"{{x}}"` prints `{x}` -/
 theorem cex_display_braces : fmtRender "a{b}".toList = none ∧ fmtRender "{{x}}".toList = some "{x}".toList := by decide
 
 /-- the `format!` template of a mixed path segment (built from spec text) is brace-safe: proved in C03 -/
